@@ -16,7 +16,7 @@ func init() { register("C16", checkC16) }
 
 func checkC16(r *Run) propMeta {
 	meta := propMeta{Level: "other",
-		Explanation: "Decides the lock discipline and structural invariants of both cache implementations: (R1) guarded-by — every access to a field that is written after construction (Sieve.store/queue/hand, entry.value/element, NonExpiringMapCache.store) happens under the cache's RWMutex in a sufficient mode, lock-free helpers are called only by holders; this gives data-race freedom and, since each public operation is one critical section, per-operation atomicity; (R2) no re-entrant acquisition, every Lock has a deferred Unlock; (R3) bounded — every insertion of a new key is dominated by the capacity guard, evict removes an entry on every path, and a non-positive capacity is clamped or never stores; (R4) pairing — store insert ↔ queue push ↔ size+1 and store delete ↔ queue remove ↔ size-1 occur together, keeping the size statistic and the queue in bijection with the store; a removal keyed by a caller-supplied key, with its size decrement, runs only under a comma-ok lookup that found the key; (R6) every exported operation acquires the lock at most once, itself or through one self-locking helper (one critical section per operation); (R5) stale hand — every queue removal is preceded by moving the eviction hand off the removed element. NOT decided: exactness of hit/miss counters under concurrency, the eviction policy, linearizability as a history property (only the structural sufficient condition 'one critical section per operation').",
+		Explanation: "Decides the lock discipline and structural invariants of both cache implementations: (R1) guarded-by — every access to a field that is written after construction (Sieve.store/queue/hand, entry.value/element, NonExpiringMapCache.store) happens under the cache's RWMutex in a sufficient mode, lock-free helpers are called only by holders; this gives data-race freedom and, since each public operation is one critical section, per-operation atomicity; (R2) no re-entrant acquisition, every Lock has a deferred Unlock; (R3) bounded — every insertion of a new key is dominated by the capacity guard, evict removes an entry on every path, and a non-positive capacity is clamped or never stores; (R4) pairing — store insert ↔ queue push ↔ size+1 and store delete ↔ queue remove ↔ size-1 occur together, keeping the size statistic and the queue in bijection with the store; a removal keyed by a caller-supplied key, with its size decrement, runs only under a comma-ok lookup that found the key; the shared statistics counters are written only by their event methods (size: Put +1 / Delete −1); (R6) every exported operation acquires the lock at most once, itself or through one self-locking helper (one critical section per operation); (R5) stale hand — every queue removal is preceded by moving the eviction hand off the removed element. NOT decided: exactness of hit/miss counters under concurrency, the eviction policy, linearizability as a history property (only the structural sufficient condition 'one critical section per operation').",
 		Assumptions: []string{"sync.RWMutex and sync/atomic semantics (Go memory model)", "fields never written after construction are immutable and need no guard"},
 		TrustedBase: []string{"go/types", "this analyser"}}
 	if err := r.Load("./cache/..."); err != nil {
@@ -33,6 +33,7 @@ func checkC16(r *Run) propMeta {
 		checkDeletePresence(r, p, lm)
 	}
 	checkCapacityClamp(r, p)
+	checkCounterWriters(r, p)
 	r.Floor("C16-R1-guarded-by", 18)
 	r.Floor("C16-R6-one-critical-section", 8)
 	r.Floor("C16-R3-bounded", 2)
@@ -517,7 +518,29 @@ func checkSingleCriticalSection(r *Run, lm *LockModel) {
 		}
 		sections := 0
 		var where []string
-		if m.Acquires != modeNone {
+		// the method's own acquisitions, wherever they stand in the body
+		own := 0
+		ast.Inspect(m.Decl.Body, func(n ast.Node) bool {
+			if _, isLit := n.(*ast.FuncLit); isLit {
+				return false
+			}
+			call, ok := n.(*ast.CallExpr)
+			if !ok {
+				return true
+			}
+			if sel, ok := call.Fun.(*ast.SelectorExpr); ok && (sel.Sel.Name == "Lock" || sel.Sel.Name == "RLock") {
+				if inner, ok := ast.Unparen(sel.X).(*ast.SelectorExpr); ok {
+					if fs := lm.Pkg.TypesInfo.Selections[inner]; fs != nil && fs.Obj() == lm.Mutex {
+						own++
+					}
+				}
+			}
+			return true
+		})
+		if own == 0 && m.Acquires != modeNone {
+			own = 1
+		}
+		for i := 0; i < own; i++ {
 			sections++
 			where = append(where, "own lock")
 		}
@@ -607,5 +630,84 @@ func checkDeletePresence(r *Run, p *packages.Package, lm *LockModel) {
 			}
 			return true
 		})
+	}
+}
+
+// checkCounterWriters (R4, counters): the statistics counters are shared by pointer between every copy of a Stats value
+// and the cache that owns it, and the size counter is what the capacity guard reads.  They may be written only by the
+// four event methods: size by Put (+1) and Delete (-1), hits by Hit, misses by Miss.  Any other writer — for example a
+// "Combined" that accumulates into its receiver copy — changes the live cache's counters.
+func checkCounterWriters(r *Run, p *packages.Package) {
+	info := p.TypesInfo
+	tn, _ := p.Types.Scope().Lookup("Stats").(*types.TypeName)
+	if tn == nil {
+		r.Undecide("C16-R4: cache.Stats not found")
+		return
+	}
+	st, ok := tn.Type().Underlying().(*types.Struct)
+	if !ok {
+		return
+	}
+	counters := map[*types.Var]bool{}
+	for i := 0; i < st.NumFields(); i++ {
+		if _, isPtr := st.Field(i).Type().(*types.Pointer); isPtr {
+			counters[st.Field(i)] = true
+		}
+	}
+	allowed := map[string]map[string]string{"size": {"Stats.Put": "1", "Stats.Delete": "-1"}, "hits": {"Stats.Hit": "1"}, "misses": {"Stats.Miss": "1"}}
+	n := 0
+	for _, f := range p.Syntax {
+		for _, d := range f.Decls {
+			fd, ok := d.(*ast.FuncDecl)
+			if !ok || fd.Body == nil {
+				continue
+			}
+			ast.Inspect(fd.Body, func(x ast.Node) bool {
+				call, ok := x.(*ast.CallExpr)
+				if !ok {
+					return true
+				}
+				sel, ok := call.Fun.(*ast.SelectorExpr)
+				if !ok {
+					return true
+				}
+				switch sel.Sel.Name {
+				case "Add", "Store", "Swap", "CompareAndSwap", "And", "Or":
+				default:
+					return true
+				}
+				fsel, ok := ast.Unparen(sel.X).(*ast.SelectorExpr)
+				if !ok {
+					return true
+				}
+				fs := info.Selections[fsel]
+				if fs == nil || fs.Kind() != types.FieldVal {
+					return true
+				}
+				fv, _ := fs.Obj().(*types.Var)
+				if !counters[fv] {
+					return true
+				}
+				n++
+				where := funcDeclName(fd)
+				construct := where + ":" + fv.Name() + "." + sel.Sel.Name
+				want, isAllowed := allowed[fv.Name()][where]
+				arg := ""
+				if len(call.Args) == 1 {
+					if tv, has := info.Types[call.Args[0]]; has && tv.Value != nil {
+						arg = tv.Value.ExactString()
+					}
+				}
+				if isAllowed && sel.Sel.Name == "Add" && arg == want {
+					r.Pass("C16-R4-pairing", construct, call.Pos(), "the %s counter changes by %s in its event method", fv.Name(), want)
+				} else {
+					r.Fail("C16-R4-pairing", construct, call.Pos(), "%s writes the shared %s counter (%s(%s)): the counters are shared by pointer with the live cache, so this changes the cache's own statistics — for size, the value its capacity guard reads", where, fv.Name(), sel.Sel.Name, exprString(r.Fset, call.Args[0]))
+				}
+				return true
+			})
+		}
+	}
+	if n < 4 {
+		r.Undecide("C16-R4: expected the four event methods to write the counters, found %d writes", n)
 	}
 }
